@@ -61,10 +61,17 @@ func (f *Ash) Call(s *slip.Scope, args slip.List, depth int) (result slip.Object
 			result = ti << sh
 		default:
 			// The shifted integer is not a fixnum.
+			if slip.ArrayMaxDimension < sh/8 {
+				slip.ArithmeticPanic(s, depth, slip.Symbol("ash"), args,
+					"the result of a left shift by %d bits is too large to represent", sh)
+			}
 			var bi big.Int
 			result = (*slip.Bignum)(bi.Lsh(big.NewInt(int64(ti)), uint(sh)))
 		}
 	case slip.Octet:
+		if sh < -64 {
+			sh = -64 // all bits are shifted out
+		}
 		if sh < 0 {
 			result = slip.Octet(uint64(ti) >> -sh)
 		} else {
@@ -72,6 +79,13 @@ func (f *Ash) Call(s *slip.Scope, args slip.List, depth int) (result slip.Object
 		}
 	case *slip.Bignum:
 		ba := (*big.Int)(ti).Bytes()
+		if sh < -8*len(ba) {
+			sh = -8 * len(ba) // all bits are shifted out
+		}
+		if slip.ArrayMaxDimension < sh/8 {
+			slip.ArithmeticPanic(s, depth, slip.Symbol("ash"), args,
+				"the result of a left shift by %d bits is too large to represent", sh)
+		}
 		if sh < 0 {
 			sh = -sh
 			bs := sh / 8
